@@ -1,8 +1,44 @@
 (** Property C14 — output whitespace follows template layout and whitespace-removal markers.
-    OBLIGATIONS: C14_nonvacuous *)
-From GV Require Import Base.Regex.
+    Theorems are about Base/Regex.v, the model of the regexp pass of Buffer.Bytes() (tied to the real function by
+    the L-RUNTIME correspondence of the check), with the marker constants regenerated from runtime.go.
+    "inert" text contains no '~' and no byte 0xE2: text in which no marker look-alike can form (the complement is
+    exactly known finding F04).
+    OBLIGATIONS: C14_inner_marker_eats_following_whitespace C14_marker_eats_preceding_whitespace
+      C14_text_is_left_alone C14_text_before_anything_is_left_alone C14_no_marker_in_output_text C14_nonvacuous *)
+From GV Require Import Base.Regex Proofs.NukeProofs.
+
+(** `<` (and the trailing side of `>`): the marker and all white space immediately after it are removed *)
+Theorem C14_inner_marker_eats_following_whitespace : forall t, nuke (c_NukeAfter ++ t) = nuke (drop_ws t).
+Proof. exact nuke_after. Qed.
+Print Assumptions C14_inner_marker_eats_following_whitespace.
+
+(** `>` (and the closing side of `<`): the marker and all white space immediately before it are removed *)
+Theorem C14_marker_eats_preceding_whitespace : forall ws t, all_ws ws -> nuke (ws ++ c_NukeBefore ++ t) = nuke t.
+Proof. exact nuke_before. Qed.
+Print Assumptions C14_marker_eats_preceding_whitespace.
+
+(** nothing else is removed: inert text is returned unchanged *)
+Theorem C14_text_is_left_alone : forall s, inert s -> nuke s = s.
+Proof. exact nuke_inert. Qed.
+Print Assumptions C14_text_is_left_alone.
+
+(** ... also in front of arbitrary further content (markers included), up to its last non-blank character *)
+Theorem C14_text_before_anything_is_left_alone : forall s t,
+  inert s -> s <> [] -> re_space (last s 0) = false -> ~ starts_226 t -> nuke (s ++ t) = s ++ nuke t.
+Proof. exact nuke_text. Qed.
+Print Assumptions C14_text_before_anything_is_left_alone.
+
+Theorem C14_no_marker_in_output_text : forall s,
+  inert s -> contains c_NukeAfter s = false /\ contains c_NukeBefore s = false.
+Proof. exact inert_marker_free. Qed.
+Print Assumptions C14_no_marker_in_output_text.
 
 Example C14_nonvacuous :
-  nuke (lit "<a>" ++ c_NukeAfter ++ [10; 32] ++ lit "x " ++ [10] ++ c_NukeBefore ++ lit "</a>") = lit "<a>x</a>".
-Proof. vm_compute. reflexivity. Qed.
+  nuke (lit "<a>" ++ c_NukeAfter ++ [10; 32] ++ lit "x " ++ [10] ++ c_NukeBefore ++ lit "</a>") = lit "<a>x</a>" /\
+  inert (lit "<a>x</a>") /\ all_ws [32; 10; 9].
+Proof.
+  split; [vm_compute; reflexivity|]. split.
+  - split; cbn; intuition discriminate.
+  - repeat constructor.
+Qed.
 Print Assumptions C14_nonvacuous.
